@@ -118,8 +118,8 @@ def attribution_items(tier: str) -> List[Any]:
         ["txn GroupIndex", "int 1", "+"], ["global GroupSize", "int 1", "-"], ["txn Fee", "int 1", "+"], ["txn TypeEnum", "int 1", "+"],
         ["txn OnCompletion", "int 1", "+"], ["int 2", "txn GroupIndex", "-"], ["txn NumAppArgs"], ["txn GroupIndex", "int 1", "+", "gtxns GroupIndex"],
     ]
-    consts = ["int 0", "int 1", "int 2", "int 6", "int 1000"] if tier != "quick" else ["int 1", "int 2", "int 6"]
-    ops = ("==", "!=", "<", ">=") if tier != "quick" else ("==", "!=", "<")
+    consts = ["int 1", "int 2", "int 6"]
+    ops = ("==", "!=", "<")
     atoms: List[List[str]] = []
     for r in int_reads:
         for c in consts:
